@@ -296,7 +296,7 @@ def replay_file(path, keep=False):
     """./check --replay <file>: re-run the recorded counterexample against /repo's CURRENT tree.
     exit 1 (and a VIOLATION line) if it still reproduces, 0 if it no longer does."""
     rep = json.load(open(path))
-    if rep.get("engine") == "z3":
+    if rep.get("engine") in ("z3", "c13-text"):
         return replay_z3(rep, path, keep)
     scratch = "/var/tmp/masscanned-verif.replay.%d" % os.getpid()
     os.makedirs(scratch, exist_ok=True)
@@ -324,6 +324,13 @@ def replay_z3(rep, path, keep=False):
     try:
         files, harnesses = ov_mod.parse_harness_files()
         ovdir, src_hash, _ = ov_mod.build_overlay(scratch, [], (), set(k for h in harnesses.values() for k in h.known))
+        if rep.get("engine") == "c13-text":
+            import c13_engine
+            if c13_engine.replay(rep, ovdir):
+                print("VIOLATION property=%s replay=%s" % (rep["property"], path))
+                return 1
+            log("counterexample no longer reproduces on the current tree")
+            return 0
         real = native_real_id(ovdir, rep["witness"], rep["mode"])
         ref = ref_id(rep["witness"], rep["mode"])
         log("replay z3 witness %s (%s): real matcher -> %s, signature set -> %s" % (rep["witness"], rep["mode"], real, ref))
